@@ -127,6 +127,10 @@ func (prop) Decode(raw []byte) (any, error) {
 			if s.Kind != mgeom.GC || op.L < 0 || op.L > 6 {
 				return nil, fmt.Errorf("bad setlayout")
 			}
+		case "bulk":
+			if s.Kind == mgeom.GC || len(op.Parts) == 0 || len(op.Parts) > 4 || op.I < 1 || op.I > 400 {
+				return nil, fmt.Errorf("bad bulk push")
+			}
 		case "reverse", "swap", "clone", "cloneover":
 			if s.Kind == mgeom.GC {
 				return nil, fmt.Errorf("%s on a collection", op.K)
@@ -216,6 +220,14 @@ func (prop) Generate(r *prng.Rand, phase string) any {
 		}
 	}
 	quiet := []float64{0, 0, 0.3, 0.8}[r.Intn(4)]
+	if s.Kind != mgeom.GC && !persistent && r.Chance(0.003) {
+		// hundreds of parts (a per-part parallel or blocked path would engage)
+		op := Op{K: "bulk", R: 0, I: []int{64, 255, 256, 257, 300}[r.Intn(5)], Q: r.Chance(0.5)}
+		for j := r.Range(1, 3); j > 0; j-- {
+			op.Parts = append(op.Parts, part(cur[0]))
+		}
+		s.Ops = append(s.Ops, op)
+	}
 	for i := 0; i < nops; i++ {
 		op := Op{R: r.Pick(3, 1), Q: r.Chance(quiet)}
 		curR = op.R
@@ -676,7 +688,7 @@ func (prop) Execute(scAny any, phase string, log *core.Log) core.Result {
 			kinds.WriteByte(op.K[4])
 		}
 		switch op.K {
-		case "push", "pushself", "pushmany", "reverse", "pushx":
+		case "push", "pushself", "pushmany", "reverse", "pushx", "bulk":
 			dropAliases(op.R) // what was sliced from this receiver may legitimately change now
 		case "swap":
 			dropAliases(-1)
@@ -1010,6 +1022,29 @@ func (prop) Execute(scAny any, phase string, log *core.Log) core.Result {
 			if !tainted[op.R] && !observeAll(&res, s.Kind, "clone of "+names[op.R], c, mv, after) {
 				return res
 			}
+		case "bulk":
+			for j := 0; j < op.I; j++ {
+				pm := op.Parts[j%len(op.Parts)].Clone().Norm()
+				if pm.EffLayout() != mv.L {
+					break
+				}
+				pg, err := mgeom.Build(pm)
+				if err != nil {
+					res.Fail("build", "build:"+pm.T, "building part %s failed: %v", pm, err)
+					return res
+				}
+				if p := core.Guard(func() { err = rv.push(pg) }); p != "" || err != nil {
+					res.Fail("push-refused", "push-refused:"+s.Kind+":bulk", "%s: push %d of %d failed: %v %s", after, j, op.I, err, p)
+					return res
+				}
+				mv.Parts = append(mv.Parts, pm)
+				successes++
+				if isEmptyPart(pm) {
+					sawEmpty = true
+				}
+			}
+			res.Steps += op.I
+			res.Count("probe:hundreds-of-parts", 1)
 		case "cloneover":
 			// receiver 1-R is from now on R.Clone(): both are pushed to, reversed
 			// and swapped independently for the rest of the history
